@@ -51,6 +51,10 @@ func runC08(c *Ctx) {
 	c.rule("C08-R11", "MEMO (whole module): no object built from a string parameter is kept in a long-lived map (held in a struct field) under a key that is a lossy image of that parameter (case folding, trimming, a base name) while the object keeps the parameter as given: a later request that differs only in what the key discards is handed the object built for an earlier one")
 	c.Sites["C08-R11#table-stores-examined"] = memoKeyAudit(c, "C08-R11", c.modulePkgs(), "")
 	c.ob("C08-R11", "module#table-stores-examined", token.NoPos, c.Sites["C08-R11#table-stores-examined"] >= 10, "fewer than 10 stores into long-lived string-keyed tables found in the module")
+	// ---- R12 sibling containers change together
+	c.rule("C08-R12", "PAIR (whole module): a struct that keeps the same objects in two containers (maps/slices with one element type *T) changes them together: every function that inserts into, deletes from or replaces one does so for the other - otherwise requests served through one container see objects the other no longer knows (stale sessions, evicted cache entries, removed connections)")
+	c.Sites["C08-R12#sibling-container-pairs"] = siblingIndexAudit(c, "C08-R12", c.modulePkgs())
+	c.ob("C08-R12", "module#sibling-containers-examined", token.NoPos, true, "")
 	// ---- R1 shared write-set
 	c.rule("C08-R1", "WRS: no function of pkg/interpreter reachable from a request root stores to, updates a map of, or atomically modifies a field of the shared Interpreter / TypeChecker / ModuleResolver objects, defines or sets variables in Interpreter.globalEnv, or writes a package-level variable, unless a mutex of the owning object is held at that point")
 	roots := []string{"Interpreter.ExecuteRoute", "Interpreter.ExecuteCommand", "Interpreter.ExecuteEventHandler", "Interpreter.ExecuteQueueWorker"}
